@@ -26,8 +26,8 @@ func VerifC18Events() {
 	lib.VerifAssert(err == nil, "event registered")
 	ev := gen.Event{Name: "ev", Node: n.name}
 
-	var published []int   // payloads accepted so far
-	var want [2][]int     // what each consumer must find in its mailbox
+	var published []int // payloads accepted so far
+	var want [2][]int   // what each consumer must find in its mailbox
 	var linked, mon [2]bool
 	subs := 0
 	starts, stops := 0, 0
@@ -182,4 +182,75 @@ func VerifC18Events() {
 		lib.VerifAssert(exits == wantExit && downs == wantDown, "one exit per link and one down per monitor when the event goes away")
 	}
 	lib.VerifReach("event history checked")
+}
+
+// c18WindowTM wraps the node's target manager: the first time the publisher asks for the
+// subscribers of the event, a new subscription is carried out right there - i.e. in the window between
+// the publisher's push into the event buffer and its reading of the subscriber list.
+type c18WindowTM struct {
+	gen.TargetManager
+	cons    *process
+	ev      gen.Event
+	asLink  bool
+	started bool
+	done    bool
+	last    []gen.MessageEvent
+	err     error
+}
+
+func (t *c18WindowTM) GetConsumersForTarget(target any) []gen.PID {
+	if !t.started && target == any(t.ev) {
+		t.started = true
+		// another goroutine subscribes now; it runs until it finishes or has to wait for the publisher
+		go func() {
+			if t.asLink {
+				t.last, t.err = t.cons.LinkEvent(t.ev)
+			} else {
+				t.last, t.err = t.cons.MonitorEvent(t.ev)
+			}
+			t.done = true
+		}()
+		lib.VerifYield()
+	}
+	return t.TargetManager.GetConsumersForTarget(target)
+}
+
+// VerifC18Window: a subscription (link or monitor) that completes while a publication is under way -
+// after the message has been put into the event's buffer and before the publisher reads the subscriber
+// list - taken sequentially. The new subscriber must see that message exactly once: either handed over
+// with the buffered messages or delivered to its mailbox, not both.
+func VerifC18Window() {
+	lib.VerifClockAdvance(0)
+	n := vfNode()
+	prod, _ := vfProc(n, 2000, "", gen.ProcessStateRunning, 0)
+	cons, _ := vfProc(n, 2001, "", gen.ProcessStateRunning, 0)
+	buffer := lib.VerifPick("buffer", 3)
+	token, err := prod.RegisterEvent("ev", gen.EventOptions{Buffer: buffer})
+	lib.VerifAssert(err == nil, "event registered")
+	ev := gen.Event{Name: "ev", Node: n.name}
+	if lib.VerifPick("earlier", 2) == 1 {
+		lib.VerifAssert(prod.SendEvent("ev", token, 1) == nil, "the token holder can publish")
+	}
+	w := &c18WindowTM{TargetManager: n.targetManager, cons: cons, ev: ev, asLink: lib.VerifPick("kind", 2) == 0}
+	n.targetManager = w
+	lib.VerifAssert(prod.SendEvent("ev", token, 7) == nil, "the token holder can publish")
+	lib.VerifYield()
+	lib.VerifAssert(w.done && w.err == nil, "the subscription in the window succeeded")
+	handed := 0
+	for _, m := range w.last {
+		if m.Message == 7 {
+			handed++
+		}
+	}
+	delivered := 0
+	for it := cons.mailbox.Main.Item(); it != nil; it = it.Next() {
+		if mm, ok := it.Value().(*gen.MailboxMessage); ok {
+			if me, ok := mm.Message.(gen.MessageEvent); ok && me.Message == 7 {
+				delivered++
+			}
+		}
+	}
+	lib.VerifAssert(handed+delivered <= 1, "a subscriber sees a publication at most once (handed over as buffered or delivered, not both)")
+	lib.VerifAssert(handed+delivered >= 1 || buffer == 0, "a publication under way when the subscription completes is not lost to a buffered event")
+	lib.VerifReach("window checked")
 }
